@@ -5,6 +5,7 @@ mod common;
 mod fx;
 mod fxcache;
 mod fxcommon;
+mod fxcrash;
 mod fxmain;
 mod ledger;
 mod rng;
